@@ -229,8 +229,7 @@ Definition extended_by (ok : string -> bool) (old v : string) : bool :=
   else match cut_prefix (old ++ ", ") v with Some e => ok e | None => false end.
 
 (** the sentence about one field name [k] (canonical, not Host), given the values [vs] the upstream saw for it *)
-Definition hdr_clause (q : request) (pl : pipeline) (tracing : bool) (k : string) (vs : list string) : bool :=
-  let hin := in_headers q in
+Definition hdr_clause_h (hin : header) (peer : string) (pl : pipeline) (tracing : bool) (k : string) (vs : list string) : bool :=
   let pvs := line_values k (p_headers pl) in
   let with_cookies := String.eqb k "Cookie" && negb (is_nil (p_cookies pl)) in
   if negb (is_nil pvs) then
@@ -245,11 +244,11 @@ Definition hdr_clause (q : request) (pl : pipeline) (tracing : bool) (k : string
   else if String.eqb k "X-Forwarded-For" then
     (* "X-Forwarded-For or Forwarded is extended by the peer address" *)
     if forwarding_active true hin
-    then match vs with [v] => extended_by (String.eqb (q_peer q)) (h_joined k hin) v | _ => false end
+    then match vs with [v] => extended_by (String.eqb peer) (h_joined k hin) v | _ => false end
     else true
   else if String.eqb k "Forwarded" then
     if forwarding_active true hin then true
-    else match vs with [v] => extended_by (names_peer (q_peer q)) (h_joined k hin) v | _ => false end
+    else match vs with [v] => extended_by (names_peer peer) (h_joined k hin) v | _ => false end
   else if is_forwarding_name k || hop_by_hop hin k then true
   else if tracing && mem_str k propagation_names then true
   else if with_cookies then cookies_ok pl vs
@@ -259,13 +258,20 @@ Definition hdr_clause (q : request) (pl : pipeline) (tracing : bool) (k : string
   else if String.eqb k "User-Agent" then ua_ok (h_values k hin) vs
   else leq vs (h_values k hin).
 
-(** the names the statement talks about for this request *)
-Definition statement_names (q : request) (pl : pipeline) : list string :=
-  (map fst (in_headers q) ++ map (fun l => canon_key (fst l)) (p_headers pl) ++
-   ["Forwarded"; "X-Forwarded-For"; "X-Forwarded-Method"; "X-Forwarded-Uri"; "X-Forwarded-Path"; "Cookie"])%list.
+Definition hdr_clause (q : request) (pl : pipeline) (tracing : bool) (k : string) (vs : list string) : bool :=
+  hdr_clause_h (in_headers q) (q_peer q) pl tracing k vs.
 
+(** the names the statement talks about for this request *)
+Definition statement_names_h (hin : header) (pl : pipeline) : list string :=
+  (map fst hin ++ map (fun l => canon_key (fst l)) (p_headers pl) ++
+   ["Forwarded"; "X-Forwarded-For"; "X-Forwarded-Method"; "X-Forwarded-Uri"; "X-Forwarded-Path"; "Cookie"])%list.
+Definition statement_names (q : request) (pl : pipeline) : list string := statement_names_h (in_headers q) pl.
+
+(** ([in_headers q] is computed once) *)
 Definition headers_ok (q : request) (pl : pipeline) (tracing : bool) (obs : header) : bool :=
-  forallb (fun k => String.eqb k "Host" || hdr_clause q pl tracing k (h_values k obs)) (statement_names q pl).
+  let hin := in_headers q in
+  forallb (fun k => String.eqb k "Host" || hdr_clause_h hin (q_peer q) pl tracing k (h_values k obs))
+          (statement_names_h hin pl).
 
 Definition expected_host (pl : pipeline) (r : rule) : string :=
   match pipeline_value (p_headers pl) "Host" with
@@ -308,14 +314,16 @@ Definition spec_ok (q : request) (pl : pipeline) (r : rule) (o : outcome) : bool
 (** * guards: the inputs on which a recorded finding shows *)
 
 (** C15-F1: the query does not parse and a parameter that is to be removed is in it *)
-Definition guard_F1 (q : request) (r : rule) : bool :=
-  match view_url q with
+Definition guard_F1_v (v : option hurl) (r : rule) : bool :=
+  match v with
   | None => false
   | Some u =>
     let names := cfg_strip_query r in
     negb (is_nil names) && negb (is_empty (u_query u)) && snd (parse_query (u_query u)) &&
     existsb (fun k => negb (is_nil (values_get k (fst (parse_query (u_query u)))))) names
   end.
+
+Definition guard_F1 (q : request) (r : rule) : bool := guard_F1_v (view_url q) r.
 
 (** C15-F2: a trusted peer's X-Forwarded-Method differs from the method of the request *)
 Definition guard_F2 (q : request) : bool := negb (String.eqb (view_method q) (q_method q)).
@@ -341,11 +349,13 @@ Fixpoint renorm_sensitive (s : string) : bool :=
 
 (** C15-F3: `allow_encoded_slashes: on` and the path (or the prefix to add) has
     such a spot, or the whole decoded path is "*" (which net/url never escapes) *)
-Definition guard_F3 (q : request) (r : rule) : bool :=
-  match view_url q, r_setting r with
+Definition guard_F3_v (v : option hurl) (r : rule) : bool :=
+  match v, r_setting r with
   | Some u, On => renorm_sensitive (u_rawpath u) || renorm_sensitive (cfg_add r) || String.eqb (u_path u) "*"
   | _, _ => false
   end.
+
+Definition guard_F3 (q : request) (r : rule) : bool := guard_F3_v (view_url q) r.
 
 (** C15-F4: the pipeline produced a forwarding header that the forwarded-header block then overwrites *)
 Definition guard_F4 (q : request) (pl : pipeline) : bool :=
@@ -362,8 +372,8 @@ Definition guard_F5 (r : rule) : bool :=
 
 (** C15-F6: parameters are to be removed, the query parses, and Values.Encode
     spells what is left differently (order of the keys, escapes, `a` vs `a=`, empty settings) *)
-Definition guard_F6 (q : request) (r : rule) : bool :=
-  match view_url q with
+Definition guard_F6_v (v : option hurl) (r : rule) : bool :=
+  match v with
   | None => false
   | Some u =>
     let names := cfg_strip_query r in
@@ -371,6 +381,8 @@ Definition guard_F6 (q : request) (r : rule) : bool :=
     negb (is_nil names) && negb (is_empty qs) && negb (snd (parse_query qs)) &&
     negb (String.eqb (values_encode (del_all names (fst (parse_query qs)))) (kept_settings names qs))
   end.
+
+Definition guard_F6 (q : request) (r : rule) : bool := guard_F6_v (view_url q) r.
 
 (** C15-F7: the forwarding header this request's information travels in came in more than one field line *)
 Definition guard_F7 (q : request) : bool :=
